@@ -240,6 +240,19 @@ def r08e(ctx):
                 helper = m.method(q, names[0].rsplit(".", 1)[-1])
                 if helper is not None:
                     rets = [x for x in walk_no_nested(helper.node) if isinstance(x, ast.Return)]
+                    hp = func_params(helper.node)[-1]
+                    split = [i for i in walk_no_nested(helper.node) if isinstance(i, ast.If) and isinstance(i.test, ast.BoolOp)]
+                    numeric = [i for i in walk_no_nested(helper.node) if isinstance(i, ast.If) and isinstance(i.test, ast.Call)
+                               and call_name(i.test) == "isinstance" and {"int", "float"} <= {dotted(e) for e in (
+                                   i.test.args[1].elts if isinstance(i.test.args[1], ast.Tuple) else [i.test.args[1]])}]
+                    if split or not numeric:
+                        bad_ = (split or [helper.node])[0]
+                        ctx.violation("R08e", f.file, helper.short, bad_, "rank classes follow native comparability",
+                                      f"{helper.short} ranks by `{norm(bad_.test, 60) if split else 'separate int / float tests'}`: values that "
+                                      f"compare natively (int, float and bool do: True < 2) must share one rank, because __lt__ tries the "
+                                      f"native comparison first - otherwise True < 2 natively, 2 < 'a' and 'a' < True by rank, a cycle, and "
+                                      f"sorted() in DictNode.from_dict depends on the written key order again")
+                        continue
                     tagged = rets and all(isinstance(x.value, ast.Tuple) and x.value.elts and isinstance(x.value.elts[0], ast.Constant)
                                           and isinstance(x.value.elts[0].value, int) for x in rets)
                     tags = [x.value.elts[0].value for x in rets] if tagged else []
